@@ -284,7 +284,7 @@ func (x *Exec) autoInline(fn *ssa.Function) bool {
 	for _, b := range fn.Blocks {
 		n += len(b.Instrs)
 	}
-	if n > 120 {
+	if n > 400 {
 		return false
 	}
 	return len(analyzeLoops(fn)) == 0
